@@ -238,3 +238,30 @@ func VerifDecompressArbitrary() {
 		verifAssert(len(out) <= codec.unknown*verifParam("ENC"), "output is no longer than what the codec returned")
 	}
 }
+
+// VerifDecompressTwice: two server streams decompressed one after the other by the same
+// compressor (one connection): what was returned for the first stays what it was.
+func VerifDecompressTwice() {
+	codec := &vCodec{chunk: 8, maxEnc: 2}
+	c := &compressor{Codec: codec}
+	var outs, wants [][]byte
+	for i := 0; i < 2; i++ {
+		p := verifBytes(verifParam("S"))
+		verifAssume(len(p) > 0)
+		e, _ := codec.Encode(p, nil)
+		for _, q := range codec.pairs[:len(codec.pairs)-1] {
+			verifAssume(!vBytesEq(q.enc, e) || vBytesEq(q.src, p))
+		}
+		stream := vPutU32(nil, uint32(len(p)))
+		stream = vPutU32(stream, uint32(len(e)))
+		stream = append(stream, e...)
+		out, err := c.decompressCellblocks(stream)
+		verifAssert(err == nil, "a conforming stream decompresses")
+		outs = append(outs, out)
+		wants = append(wants, append([]byte{}, p...))
+	}
+	for i := range outs {
+		verifAssert(vBytesEq(outs[i], wants[i]), "data returned for an earlier stream is not changed by a later one")
+	}
+	verifReach("twice")
+}
